@@ -27,6 +27,46 @@ def unwrap(e: ast.expr, *names: str) -> ast.expr:
     return e
 
 
+def set_paths(mod, fn: ast.FunctionDef, want: str) -> Tuple[Optional[bool], str]:
+    """Path form of the set-algebra rule: every returning path computes the wanted set relation of the two lists.
+    A constant returned under a comparison of the two list *lengths* is a recognised wrong shortcut (lengths count
+    duplicates, sets do not); other constant returns are not judged."""
+    from ..core.paths import PathWalker, flat_conds
+
+    params = [a.arg for a in fn.args.args]
+    if len(params) != 2:
+        return None, "not a two-parameter function"
+    try:
+        paths = [p for p in PathWalker(mod, None).paths(fn) if p.kind == "return" and p.value is not None]
+    except OverflowError:
+        return None, "too many paths"
+    if not paths:
+        return None, "no returning path"
+    unknown = None
+    for p in paths:
+        core = unwrap(p.value, "BoolType", "bool")
+        if isinstance(core, ast.Constant) and isinstance(core.value, bool):
+            lens = set()
+            for t, _pol in flat_conds(p.conds):
+                for c in ast.walk(t):
+                    if isinstance(c, ast.Call) and dotted(c.func) == "len" and c.args and isinstance(strip_cast(c.args[0]), ast.Name):
+                        lens.add(strip_cast(c.args[0]).id)
+            if set(params) <= lens:
+                return False, (f"returns the constant {core.value} on a path decided by comparing len({params[0]}) with len({params[1]}) "
+                               f"(`{p.cond_text()[:60]}`): list lengths count duplicates, the set relation does not")
+            unknown = f"a constant is returned under `{p.cond_text()[:60]}`"
+            continue
+        fake = ast.FunctionDef(name=fn.name, args=fn.args, body=[ast.Return(value=p.value)], decorator_list=[], returns=None)
+        kind, why = set_algebra(fake)
+        if kind is None:
+            unknown = why
+        elif kind != want:
+            return False, f"computes `{why}`: {kind}"
+    if unknown:
+        return None, unknown
+    return True, "every returning path computes the set relation"
+
+
 def set_algebra(fn: ast.FunctionDef) -> Tuple[Optional[str], str]:
     """Classify `BoolType(bool(set(a) OP set(b)))` and equivalent idioms: returns 'intersect', 'difference(a,b)', ..."""
     params = [a.arg for a in fn.args.args]
@@ -325,18 +365,15 @@ def check(repo: Repo, run: Run) -> None:
     run.shape("C17.X3", "arn_split|prefix", "arn.split(':')" in s and "prefix != 'arn'" in s and "field_names[len(fields)]" in s,
            "arn_split splits on ':', requires the 'arn' prefix and selects the table by field count", c7.loc(arn))
     # X4 -----------------------------------------------------------------
-    kind, why = set_algebra(c7.func("intersect"))
-    if kind is None:
-        run.inconclusive("C17.X4", "c7nlib.intersect", why)
-    else:
-        run.ob("C17.X4", "intersect", kind == "intersect", f"intersect(a, b) computes `{why}`: {kind}; definition: the lists share an element", c7.loc(c7.func("intersect")))
-    d = c7.func("difference")
-    kind, why = set_algebra(d)
-    pa = [a.arg for a in d.args.args]
-    if kind is None:
-        run.inconclusive("C17.X4", "c7nlib.difference", why)
-    else:
-        run.ob("C17.X4", "difference", kind == f"difference({pa[0]},{pa[1]})", f"difference(a, b) computes `{why}`: {kind}; definition: some element of a is missing from b", c7.loc(d))
+    for fname, want_of in (("intersect", lambda pa: "intersect"), ("difference", lambda pa: f"difference({pa[0]},{pa[1]})")):
+        f = c7.func(fname)
+        pa = [a.arg for a in f.args.args]
+        ok, why = set_paths(c7, f, want_of(pa))
+        definition = "the lists share an element" if fname == "intersect" else "some element of a is missing from b"
+        if ok is None:
+            run.inconclusive("C17.X4", f"c7nlib.{fname}", why)
+        else:
+            run.ob("C17.X4", fname, ok, f"{fname}(a, b): {why}; definition: {definition}", c7.loc(f))
     us = c7.func("unique_size")
     e = ret_expr(us)
     core = unwrap(e, "IntType", "int") if e is not None else None
